@@ -32,6 +32,13 @@ class Codec(Harness):
 
 async def observe(sess, names):
     out = {}
+    # the listing first: selecting a mailbox activates it, which would give a directory without a database row its row
+    lst = sorted(l for l in await sess.cmd('LIST "" *') if l.startswith("* LIST"))
+    lsub = sorted(l for l in await sess.cmd('LSUB "" *') if l.startswith("* LSUB"))
+    # the property lets a missing SPECIAL-USE mailbox (Drafts, Junk, ...) be created again at start-up: those are not compared
+    lst = [l for l in lst if not re.search(r"\\(Archive|Drafts|Junk|Sent|Trash|All|Flagged)\b", l)]
+    out["_list"] = sorted(re.sub(r"\\(Marked|Unmarked) ?", "", l) for l in lst)
+    out["_lsub"] = sorted(re.sub(r"\\(Marked|Unmarked) ?", "", l) for l in lsub)
     for n in names:
         sel = await sess.cmd(f"SELECT {n}")
         st = {k: re.search(k + r" (\d+)", "".join(sel)) for k in ("UIDVALIDITY", "UIDNEXT")}
@@ -44,20 +51,16 @@ async def observe(sess, names):
                 f = set(re.search(r"FLAGS \(([^)]*)\)", l).group(1).split()) - {"\\Recent"}
                 flags[uid] = sorted(f)
         out[n] = {"select_ok": any(" OK " in l for l in sel[-1:]), "vv": st["UIDVALIDITY"] and st["UIDVALIDITY"].group(1), "next": st["UIDNEXT"] and st["UIDNEXT"].group(1), "flags": flags}
-    lst = sorted(l for l in await sess.cmd('LIST "" *') if l.startswith("* LIST"))
-    lsub = sorted(l for l in await sess.cmd('LSUB "" *') if l.startswith("* LSUB"))
-    out["_list"] = sorted(re.sub(r"\\(Marked|Unmarked) ?", "", l) for l in lst)
-    out["_lsub"] = sorted(re.sub(r"\\(Marked|Unmarked) ?", "", l) for l in lsub)
     return out
 
 
 class Restart(Harness):
     """An orderly restart changes nothing a client can see (C12)."""
 
-    scope = "histories of <=3 steps from {expunge middle, expunge last, keyword+flags, flag set and removed again, append, subscribe, delete-parent-to-\\Noselect, rename, copy} on a 3-folder tree; restart after each step"
+    scope = "histories of <=3 steps from {expunge middle, expunge last, keyword+flags, flag set and removed again, append, subscribe, delete-parent-to-\\Noselect, delete-parent-and-create-again, create with two missing ancestors, rename, copy} on a 3-folder tree; restart after each step"
     exhaustive = False
 
-    STEPS = ["expunge-mid", "expunge-last", "flags", "unflag", "append", "subscribe", "noselect", "rename", "copy"]
+    STEPS = ["expunge-mid", "expunge-last", "flags", "unflag", "append", "subscribe", "noselect", "rename", "copy", "recreate", "deep-create"]
 
     def inputs(self, tier, seed):
         n = 2 if tier == "quick" else 3
@@ -68,6 +71,8 @@ class Restart(Harness):
     def check(self, inp):
         async def go():
             async with World({"inbox": 4, "work": 3, "work/sub": 2}) as w:
+                # as at a real start-up: the folders that were put on disk behind the server's back get their rows now
+                await w.server.find_all_folders()
                 a = w.session("a")
                 await a.cmd("SELECT inbox")
                 names = ["inbox", "work", "work/sub"]
@@ -90,11 +95,18 @@ class Restart(Harness):
                     elif step == "rename":
                         await a.cmd("SELECT inbox"); await a.cmd("RENAME work/sub moved")
                         names = [n if n != "work/sub" else "moved" for n in names]
+                    elif step == "recreate":
+                        # DELETE of a mailbox with a child keeps it as \\Noselect with a new UIDVALIDITY, which CREATE then reveals
+                        await a.cmd("SELECT inbox"); await a.cmd("DELETE work"); await a.cmd("CREATE work")
+                    elif step == "deep-create":
+                        # one CREATE that makes two missing ancestors as well
+                        await a.cmd("CREATE deep/er/leaf")
+                        names = names + [n for n in ("deep", "deep/er", "deep/er/leaf") if n not in names]
                     elif step == "copy":
                         await a.cmd("SELECT inbox"); await a.cmd("COPY 1 work/sub" if "work/sub" in names else "COPY 1 moved")
                     await a.cmd("SELECT inbox")
                     before = await observe(a, names)
-                    await w.restart()
+                    await w.restart(find_folders=True)
                     a = w.session(f"a{i}")
                     after = await observe(a, names)
                     if before != after:
